@@ -24,6 +24,8 @@ def families(E, A, T):
         'rightrec': [('s', seq(call(E), eof())), (E, alt(seq(call(E), p, call(E)), call(T))), (T, n)],
         'twolevel': [('s', seq(call(E), eof())), (E, alt(seq(call(E), p, call(A)), call(A))),
                      (A, alt(seq(call(A), m, call(T)), call(T))), (T, n)],
+        'direct+mutual': [('s', seq(call(E), eof())), (E, alt(seq(call(E), p, call(T)), call(A), call(T))),
+                          (A, seq(call(E), m, call(T))), (T, n)],
         'unary': [('s', seq(call(E), eof())), (E, alt(seq(call(E), p, call(A)), call(A))),
                   (A, alt(seq(u, call(A)), call(T))), (T, n)],
         'rightpow': [('s', seq(call(E), eof())), (E, alt(seq(call(E), p, call(A)), call(A))),
@@ -37,7 +39,7 @@ def universe(tier):
     names = ['a', 'e', 't', 'x']
     for (E, A, T) in itertools.permutations(names, 3):
         for fam, rules in families(E, A, T).items():
-            alpha = 'n+' + ('*' if fam in ('twolevel', 'rightpow') else '') + ('-' if fam == 'unary' else '')
+            alpha = 'n+' + ('*' if fam in ('twolevel', 'rightpow', 'direct+mutual') else '') + ('-' if fam == 'unary' else '')
             ml = maxlen if len(alpha) == 2 else maxlen - (1 if tier == 'quick' else 2)
             texts = [list(t) for k in range(ml + 1) for t in itertools.product(alpha, repeat=k)]
             g = grammar(*[rule(nm, e) for nm, e in rules])
@@ -67,9 +69,9 @@ def classify(it, text, so, ir, why):
 def run(tier):
     ck = Check('C03', tier)
     items = universe(tier)
-    mism = conformance(ck, items, classify=classify)
-    ck.cov['rule'] = (f'{len(items)} grammars = 11 families (direct, aliased, aliased entered through the alias, mutual, '
-                      'optional-prefixed, named, right-recursive mix, two precedence levels, unary prefix, right-recursive power) x all 24 '
+    mism = conformance(ck, items, classify=classify, also_generated=True)
+    ck.cov['rule'] = (f'{len(items)} grammars = 12 families (direct, aliased, aliased entered through the alias, mutual, '
+                      'optional-prefixed, named, direct plus mutual, right-recursive mix, two precedence levels, unary prefix, right-recursive power) x all 24 '
                       'assignments of rule names from {a,e,t,x} x all strings over the operator/operand alphabet up to length '
                       f'{5 if tier == "quick" else 7}; non-trivial = accepted with distinct (grammar, AST)')
     ck.cov['exhaustive'] = True
